@@ -170,8 +170,14 @@ func Generate(rng *rand.Rand, p Profile) []Step {
 			g.emit(Step{Op: kind, Actor: refmodel.Autocommit})
 		case "emptykey":
 			tag, n := g.value()
-			op := []string{"set", "setreader", "create"}[rng.Intn(3)]
-			g.emit(Step{Op: op, Actor: g.actor(), Key: "", Tag: tag, Len: n})
+			// writes with an empty key must be rejected; Delete of the empty key is
+			// accepted by the store and must stay harmless (also across reopens)
+			op := []string{"set", "setreader", "create", "delete"}[rng.Intn(4)]
+			if op == "delete" {
+				g.emit(Step{Op: op, Actor: g.actor(), Key: ""})
+			} else {
+				g.emit(Step{Op: op, Actor: g.actor(), Key: "", Tag: tag, Len: n})
+			}
 		case "lateread":
 			a := g.ended[rng.Intn(len(g.ended))]
 			op := []string{"get", "getreader", "getkeys"}[rng.Intn(3)]
